@@ -1064,3 +1064,65 @@ def eval_marked(item):
         except Exception as e:  # noqa
             rows.append({"error": f"{type(e).__name__}: {e}", "case": repr((ename, i, prod, peek)), "tb": traceback.format_exc()[-800:]})
     return rows
+
+
+# ---------------------------------------------------------------------------------------------- C02: configuration-valued defaults
+
+def eval_cfgdefault(item):
+    """C02/C01 add-on family: parameters whose *default is a configuration* (universe.g.Dbox.d = Leaf(i=3), JobD.cfg = Dbox()).
+    Every way of writing the default (unset, explicit equal configuration, equal with other ignored values, with explicit
+    defaults below) x class / extended twin x embedding x sealing history must give ONE identifier per content; a different
+    content must give another one.  Returns rows {content, how, id} for grouping."""
+    import universe.g as U
+    from experimaestro.xpmutils import DirectoryContext
+    Gr.ensure_init()
+    rows = []
+    writings = {
+        # content "default"
+        "unset": ("default", lambda: {}),
+        "explicit": ("default", lambda: {"d": U.Leaf(i=3)}),
+        "explicit+meta": ("default", lambda: {"d": U.Leaf(i=3, m=9, opt="z")}),
+        "explicit+path": ("default", lambda: {"d": U.Leaf(i=3, p=Path("/other"))}),
+        "explicit+defaults-below": ("default", lambda: {"d": U.Leaf(i=3, f=0.5, s="d", o=None)}),
+        # other contents
+        "other-i": ("i4", lambda: {"d": U.Leaf(i=4)}),
+        "other-s": ("i3sx", lambda: {"d": U.Leaf(i=3, s="x")}),
+        # a meta-flagged value is outside the signature, as is a value equal to the default: same content
+        "metaflag": ("default", lambda: {"d": setmeta_(U.Leaf(i=3), True)}),
+    }
+
+    def setmeta_(c, v):
+        from experimaestro import setmeta
+        return setmeta(c, v)
+
+    embedders = {
+        "self": lambda mk: mk(),
+        "job.cfg": lambda mk: U.JobD(x=1, cfg=mk()),
+    }
+    histories = ("unsealed", "sealed", "peek+sealed", "instance")
+    for cname, cls in (("Dbox", U.Dbox), ("DboxV2", U.DboxV2)):
+        for wname, (content, args) in writings.items():
+            for ename in ("self", "job.cfg"):
+                for hist in histories:
+                    try:
+                        mk = lambda: cls(**args())
+                        obj = embedders[ename](mk)
+                        if hist == "peek+sealed":
+                            Gr._peek(obj)
+                        if hist in ("sealed", "peek+sealed"):
+                            if ename == "job.cfg":
+                                with Gr.quiet():
+                                    obj.submit()
+                            else:
+                                obj.__xpm__.seal(DirectoryContext(Path(Gr._STATE["dir"]) / "sealed"))
+                        elif hist == "instance":
+                            obj.instance(DirectoryContext(Path(Gr._STATE["dir"]) / "inst"))
+                        # (the default of JobD.cfg is an instance of Dbox: the extended twin is not "the same class, later" there)
+                        row = {"content": f"{ename}:{content}" + (f":{cname}" if ename == "job.cfg" else ""), "writing": wname, "hist": hist,
+                               "how": f"{cname}:{wname}:{hist}", "id": Gr.ident(obj), "raw": Gr.raw_ident(obj)}
+                        if ename == "job.cfg" and hist in ("sealed", "peek+sealed"):
+                            row["relpath"] = str(obj.__xpm__.job.relpath)
+                        rows.append(row)
+                    except Exception as e:  # noqa
+                        rows.append({"error": f"{type(e).__name__}: {e}", "case": f"{cname}:{wname}:{ename}:{hist}", "tb": traceback.format_exc()[-800:]})
+    return rows
